@@ -484,7 +484,7 @@ def run_dtd(case):
 
 def fuzz_cases(tier, seed_base=1):
     n = 16
-    runs = 30000 if tier == 'quick' else 3000000
+    runs = 30000 if tier == 'quick' else 1500000
     return [{'shard': k, 'runs': runs} for k in range(n)]
 
 
